@@ -1,8 +1,125 @@
-(* C11 - placeholder while the proofs are being written *)
+(* C11 — A chunk-cache hit returns exactly the bytes committed under that key.
+   Statements only; every proof is [exact <lemma of Proofs/Cache.v>].
+
+   Model: Model/Cache.v (directoryCache = memory LRU + descriptor LRU (both the refcache machine of C10) + wip/final
+   files + bufPool; MemoryCache).  A schedule of concurrent callers is an op list over the atomic sub-steps (LRU-lock
+   sections incl. their OnEvicted callbacks, single syscalls); the three persist sub-steps PWrite/PRename/PDone of a
+   memory-path Commit may occur anywhere after it (SyncAdd only restricts where), the three lookups of a Get may be
+   interleaved with anything (GetMem/GetFd/GetOpen), which pooled buffer sync.Pool hands out is chosen by the
+   environment, LRU capacities are arbitrary.  [committed s k v] = some writer of key k executed Commit and v is the
+   concatenation of all its Writes. *)
 From Coq Require Import List Arith NArith Bool.
 From SV Require Import Model.Cache Proofs.Cache.
 Import ListNotations.
 
-Theorem C11_placeholder : forall off n, slice off n [] = [].
-Proof. exact slice_nil. Qed.
-Print Assumptions C11_placeholder.
+(* hit_is_committed.  For every configuration and every schedule os1: a reader r that exists after os1 (created by a
+   lookup that hit) keeps, through every continuation os2, the key and the value v = r_val fixed at its creation; as long
+   as it has not been closed, v was committed under that key by some writer (so it is not a prefix, not another key's
+   bytes, not data of an aborted or still-open writer) and EVERY ReadAt off n returns exactly slice off n v -
+   whatever evictions, recyclings, duplicate adds, renames, aborts, other readers and writers happen in os2. *)
+Theorem C11_hit_is_committed :
+  forall (dcap fcap : nat) (os1 os2 : list op) (r : nat) (rd : reader),
+    let s1 := exec (init dcap fcap) os1 in
+    let s2 := exec s1 os2 in
+    nth_error (readers s1) r = Some rd ->
+    (exists rd2, nth_error (readers s2) r = Some rd2 /\ r_key rd2 = r_key rd /\ r_val rd2 = r_val rd) /\
+    (forall rd2, nth_error (readers s2) r = Some rd2 -> r_open rd2 = true ->
+       committed s1 (r_key rd) (r_val rd) /\ forall off n, read s2 r off n = OData (slice off n (r_val rd))).
+Proof. exact hit_fixed. Qed.
+Print Assumptions C11_hit_is_committed.
+
+(* Every Get (in any state, reachable or not) either misses and changes nothing, or hits and creates exactly one new
+   open reader for the requested key - the readers the theorem above speaks about are exactly the hits. *)
+Theorem C11_hit_creates_reader_of_key :
+  forall (s : st) (k : nat) (d : bool),
+    match snd (step s (Get k d)) with
+    | OHit => exists rd, readers (fst (step s (Get k d))) = readers s ++ [rd] /\ r_key rd = k /\ r_open rd = true
+    | OMiss => fst (step s (Get k d)) = s
+    | _ => False
+    end.
+Proof. exact get_out. Qed.
+Print Assumptions C11_hit_creates_reader_of_key.
+
+(* never a buffer that is being recycled / a descriptor that is being closed: while a reader is open, the bytes.Buffer
+   it aliases still holds its value, is not in the pool and belongs to no open writer; its *os.File is open. *)
+Theorem C11_no_recycle_under_reader :
+  forall (dcap fcap : nat) (os : list op) (r : nat) (rd : reader),
+    let s := exec (init dcap fcap) os in
+    nth_error (readers s) r = Some rd -> r_open rd = true ->
+    match r_kind rd with
+    | RBuf b len h =>
+        nth_error (bufs s) b = Some (r_val rd) /\ ~ In b (pool s) /\
+        (forall w wr, nth_error (writers s) w = Some wr -> w_status wr = WOpen -> w_buf wr <> Some b)
+    | RFd f _ | ROwn f _ => fd_content s f = Some (r_val rd)
+    end.
+Proof. exact no_recycle_under_reader. Qed.
+Print Assumptions C11_no_recycle_under_reader.
+
+(* the same for a pending (synchronous or background) persist step: the cached buffer it is about to write, or has
+   written, still holds a value committed under the writer's key, is not pooled and not being written. *)
+Theorem C11_no_recycle_under_persist :
+  forall (dcap fcap : nat) (os : list op) (w : nat) (wr : writer) (stg h i : nat),
+    let s := exec (init dcap fcap) os in
+    nth_error (writers s) w = Some wr -> w_ps wr = PStage stg h i ->
+    exists b, nth_error (dval s) i = Some b /\ committed s (w_key wr) (cached_bytes s i) /\ ~ In b (pool s) /\
+      (forall w' wr', nth_error (writers s) w' = Some wr' -> w_status wr' = WOpen -> w_buf wr' <> Some b).
+Proof. exact no_recycle_under_persist. Qed.
+Print Assumptions C11_no_recycle_under_persist.
+
+(* the file linked at the final path of a key is at every moment one complete committed value of that key
+   (never a prefix: the wip file is renamed only after the full write; never another key's bytes). *)
+Theorem C11_stored_file_is_committed :
+  forall (dcap fcap : nat) (os : list op) (k : nat),
+    let s := exec (init dcap fcap) os in
+    match do_peek s k with
+    | OData v => committed s k v
+    | OMiss => True
+    | _ => False
+    end.
+Proof. exact stored_is_committed. Qed.
+Print Assumptions C11_stored_file_is_committed.
+
+(* what Add hands out: the pool holds only empty buffers, each at most once. *)
+Theorem C11_pool_clean :
+  forall (dcap fcap : nat) (os : list op),
+    let s := exec (init dcap fcap) os in
+    NoDup (pool s) /\ forall b, In b (pool s) -> nth_error (bufs s) b = Some [].
+Proof. exact pool_clean. Qed.
+Print Assumptions C11_pool_clean.
+
+(* MemoryCache: every open reader reads exactly the value a writer committed under its key. *)
+Theorem C11_memcache_hit_is_committed :
+  forall (os : list op) (r : nat) (rd : mreader),
+    let s := mexec minit os in
+    nth_error (m_rs s) r = Some rd -> mr_open rd = true ->
+    mcommitted s (mr_key rd) (mr_val rd) /\
+    forall off n, snd (mstep s (ReadAt r off n)) = OData (slice off n (mr_val rd)).
+Proof. exact mem_hit_is_committed. Qed.
+Print Assumptions C11_memcache_hit_is_committed.
+
+(* Non-vacuity 1: MaxLRUCacheEntry = 1, background persist of key 0 still pending, a reader holds key 0's buffer, key 1 is
+   committed and evicts key 0 from the LRU; a third writer (key 2) cannot get buffer 0 (not pooled); the reader still
+   reads [1;2;3]; after the reader and the persist step let go, buffer 0 is recycled and handed to the next Add. *)
+Example C11_nonvacuous_evicted_but_held :
+  let os := [Add 0 false None; Write 0 [1;2;3]%N; Commit 0; Get 0 false;
+             Add 1 false None; Write 1 [9]%N; Commit 1; Add 2 false (Some 0)] in
+  let s := exec (init 1 1) os in
+  (exists rd, nth_error (readers s) 0 = Some rd /\ r_open rd = true /\ r_val rd = [1;2;3]%N /\ r_kind rd = RBuf 0 3 1)
+  /\ R.lru_find (R.lru (dc s)) 0 = None
+  /\ read s 0 1 5 = OData [2;3]%N
+  /\ pool s = []
+  /\ snd (step s (Get 0 false)) = OMiss
+  /\ pool (exec s [CloseR 0; PWrite 0; PRename 0; PDone 0]) = [0]
+  /\ snd (step (exec s [CloseR 0; PWrite 0; PRename 0; PDone 0]) (Get 0 false)) = OHit
+  /\ snd (step (exec s [CloseR 0; PWrite 0; PRename 0; PDone 0]) (Add 3 false (Some 0))) = OOk true.
+Proof. vm_compute. repeat split; try reflexivity. eexists. repeat split; reflexivity. Qed.
+
+(* Non-vacuity 2: duplicate adds of one key (memory + direct), zero-length value, abort: the hits are the committed
+   values only; the descriptor path is used after the memory entry is gone. *)
+Example C11_nonvacuous_duplicates :
+  let os := [Add 5 false None; Add 5 true None; Add 5 false None; Write 1 [7;7]%N; Write 2 [8]%N; Abort 2;
+             Commit 0; PWrite 0; PRename 0; PDone 0; Get 5 false; Commit 1; Get 5 true; Peek 5] in
+  run (init 2 1) os = [OOk true; OOk true; OOk true; ONone; ONone; ONone; ONone; ONone; ONone; ONone; OHit; ONone; OHit; OData [7;7]%N]
+  /\ read (exec (init 2 1) os) 0 0 4 = OData []
+  /\ read (exec (init 2 1) os) 1 0 4 = OData [7;7]%N.
+Proof. vm_compute. repeat split; reflexivity. Qed.
